@@ -27,6 +27,25 @@ abbrev GoM := Except Fault
 abbrev GoErr := Option String
 abbrev GoSlice := Option Sl
 
+/-- `DataOrder` / `Triangle` (Go `byte` flag sets): non-negative integers with bitwise operations -/
+abbrev GoOrder := Int
+abbrev GoTri := Int
+
+def gand (a b : GoOrder) : GoOrder := ((a.toNat &&& b.toNat : Nat) : Int)
+def gor (a b : GoOrder) : GoOrder := ((a.toNat ||| b.toNat : Nat) : Int)
+def gxor (a b : GoOrder) : GoOrder := ((a.toNat ^^^ b.toNat : Nat) : Int)
+/-- `a &^ b` (bit clear), for flag sets below 256 -/
+def gandnot (a b : GoOrder) : GoOrder := ((a.toNat &&& (255 ^^^ b.toNat) : Nat) : Int)
+
+/-- the Go struct `AP` (`ap.go`): shape, strides, lock flag, data order, triangle -/
+structure GoAP where
+  shape : List Int := []
+  strides : List Int := []
+  fin : Bool := false
+  o : GoOrder := 0
+  tri : GoTri := 0
+deriving Repr, DecidableEq
+
 /-- loop control: the enclosing function returns `r`, or the loop ends / goes on with state `s` -/
 inductive Ctl (ρ σ : Type) where
   | ret (r : ρ)
